@@ -1,4 +1,5 @@
 //! Shared model code of the verification harness for varlink/rust.
+pub mod classify;
 pub mod ctx;
 pub mod jsongen;
 pub mod pt;
